@@ -809,8 +809,13 @@ func callOrder(fd *ast.FuncDecl, only []string) []string {
 	// optional pseudo-names in `only` (used by C10's recovery facts):
 	//   "=field"  an assignment whose left-hand side is a selector ending in .field is recorded as "=field"
 	//   "{for"    every for/range statement is bracketed by "{for" … "}" (loop NESTING becomes part of the fact)
+	//   "return"  every return statement is recorded as "return" (C18: WHERE the error check sits between a load
+	//             attempt and the assignments that record it)
 	var visit func(n ast.Node) bool
 	visit = func(n ast.Node) bool {
+		if _, ok := n.(*ast.ReturnStmt); ok && keep["return"] {
+			res = append(res, "return")
+		}
 		if as, ok := n.(*ast.AssignStmt); ok {
 			for _, l := range as.Lhs {
 				if se, ok := l.(*ast.SelectorExpr); ok && keep["="+se.Sel.Name] {
